@@ -38,9 +38,9 @@ let ipcp_cfg_of pa d1 d2 =
 (* enough oracle entries for any request: the suggestion itself is projected away *)
 let oracle = List.init 300 (fun _ -> [])
 
-let show_acts ?(sugg = false) ?(callbacks = true) (acts : act list) : string =
+let show_acts ?(sugg = false) ?(callbacks = true) ?(req = None) (acts : act list) : string =
   let l = List.filter_map (function
-    | Scr -> Some "scr"
+    | Scr -> (match req with None -> Some "scr" | Some os -> Some ("scr:" ^ show_opts os))
     | Sca (id, os) -> Some (Printf.sprintf "sca:%d:%s" (int_of_n id) (show_opts os))
     | Scn (id, os) -> Some (Printf.sprintf "scn:%d:%s" (int_of_n id) (show_opts ~sugg os))
     | Scj (id, os) -> Some (Printf.sprintf "scj:%d:%s" (int_of_n id) (show_opts os))
@@ -89,14 +89,19 @@ let () =
       Printf.printf "%s ; st=%d ; P=%s\n" (show_acts ~sugg:true acts) (int_of_n st') (hexs p)
     | "sess" :: aaa :: evs ->
       let s0 = sess_start fl (if aaa = "none" then None else Some (unhex aaa)) in
-      let first = "a=" ^ show_addr s0.s_addr ^ " pa=" ^ show_addr s0.s_cfg.ic_assigned in
+      let first = "scr:" ^ show_opts s0.s_lastreq ^ " a=" ^ show_addr s0.s_addr ^ " pa=" ^ show_addr s0.s_cfg.ic_assigned in
       let (outs, _) = List.fold_left (fun (acc, s) ev ->
-          let e = if ev = "k" then EvAck else
+          let tl = String.sub ev 1 (String.length ev - 1) in
+          let e = if ev = "k" then EvAck
+            else if ev.[0] = 'a' then EvAckW (unhex tl)
+            else if ev.[0] = 'n' then EvNak (unhex tl)
+            else if ev.[0] = 'j' then EvRej (unhex tl)
+            else
               let i = String.index ev '.' in
               EvReq (n_of_int (int_of_string (String.sub ev 1 (i - 1))),
                      unhex (String.sub ev (i + 1) (String.length ev - i - 1))) in
           let (s', acts) = sess_step fl s e in
-          (Printf.sprintf "%s up=%d a=%s" (show_acts ~callbacks:false acts) (if s'.s_open then 1 else 0) (show_addr s'.s_addr) :: acc, s'))
+          (Printf.sprintf "%s up=%d a=%s" (show_acts ~callbacks:false ~req:(Some s'.s_lastreq) acts) (if s'.s_open then 1 else 0) (show_addr s'.s_addr) :: acc, s'))
           ([first], s0) evs in
       print_endline (String.concat " | " (List.rev outs))
     | _ -> print_endline "badline"
